@@ -756,12 +756,15 @@ def build_unit(unit_dir, repo, reach=False):
                 if key in contracts:
                     raise Unsupported("duplicate contract for %s" % (key,))
                 contracts[key] = c
+    included = set()
     for rel in U.get('vc_include', []):
+        # contracts shared with another unit: only those whose function is extracted here are used
         for c in parse_vc(os.path.join(unit_dir, rel)):
             key = (c.file, tuple(c.path))
             if key in contracts:
                 raise Unsupported("duplicate contract for %s" % (key,))
             contracts[key] = c
+            included.add(key)
     used = set()
     G = Generated()
     G.unit = unit
@@ -995,7 +998,7 @@ def build_unit(unit_dir, repo, reach=False):
 
     mark('claims', claims)
     P.append(Piece('\n} // verus!\nfn main() {}\n'))
-    unused = [k for k in contracts if k not in used]
+    unused = [k for k in contracts if k not in used and k not in included]
     if unused:
         raise LostAnchor("contracts without an extracted function: %s" % unused)
     G.finish()
